@@ -154,6 +154,17 @@ CHECKS = {
              "discarded; loop bounded by max_depth; the root is never answered by the repetition shortcut. Latency of Stop and OS scheduling are NOT decided.",
         design_ref="DESIGN.md section 4, C04",
         note=TB_COMMON + " 38 individually reviewed sites (tables/reviewed_sites.json) are part of the trusted base; legal positions (with kings) are assumed as the property states."),
+    "C10": dict(
+        category="other",
+        technique="static analysis: aggregate-construction, field-write and &mut inventories over Board (immutability), closure-capture resolution of the cache "
+                  "initialiser, term checks of is_check / AttackMap::from_occupancy, decoded fn-pointer dispatch table vs Piece discriminants",
+        text="Cache clause at proof strength (B1-B4): Boards are only assembled in Board::new, nothing writes or mutably borrows their fields, the attack cell is "
+             "only filled by get_or_init with the board's own data for the colour selecting the cell - so cached answers are functions of immutable data and cannot "
+             "depend on query/clone order. B5-B7 are structural clauses: check = king squares meet attacks of the opposing colour; attack map = union over the six piece "
+             "kinds against the shared occupancy minus own squares, pawn-only under kind == Pawn; dispatch table entry i calls the attack function of Piece variant i. "
+             "Equality with geometry over all placements is not re-proved (C09 + B6).",
+        design_ref="DESIGN.md section 4, C10",
+        note=TB_COMMON + " OnceCell::get_or_init initialises at most once; relies on C09 for the per-piece sets."),
 }
 
 NOT_BUILT_REASON = "check not built yet (see DESIGN.md for the plan)"
